@@ -397,6 +397,55 @@ def import_by_path(ctx, tmp):
         del sys.modules[k]
 
 
+def names_that_are_files(ctx, tmp):
+    """a module NAME handed to the collection entry points is resolved like the interpreter resolves it, also when the working
+    directory happens to hold a file spelled like the name (an extensionless launcher script next to src/<name>/, a file
+    `acme.py` while `acme.py` is asked for as a dotted name)"""
+    import importlib.util
+    from xdoctest import core
+    layouts = [('c17tool', 'c17tool', False), ('c17acme', 'c17acme.py', True), ('c17pkg', 'c17pkg', False)]
+    for li, (pkg, stray, dotted) in enumerate(layouts):
+        proj = os.path.join(tmp, 'proj%d' % li)
+        os.makedirs(os.path.join(proj, 'src', pkg))
+        open(os.path.join(proj, 'src', pkg, '__init__.py'), 'w').write('')
+        sub = 'py' if dotted else 'core'
+        open(os.path.join(proj, 'src', pkg, sub + '.py'), 'w').write('def add(a, b):\n    """\n    >>> add(1, 2)\n    3\n    """\n    return a + b\n')
+        open(os.path.join(proj, stray), 'w').write('#!/usr/bin/env python\nprint("a launcher script, not the package")\n')
+        name = (pkg + '.py') if dotted else pkg
+        cwd, path0 = os.getcwd(), list(sys.path)
+        try:
+            os.chdir(proj)
+            sys.path.insert(0, os.path.join(proj, 'src'))
+            spec = importlib.util.find_spec(name)
+            want = os.path.dirname(spec.origin) if spec.origin.endswith('__init__.py') else spec.origin
+            ctx.evaluations += 2
+            try:
+                got = os.path.realpath(core._rectify_to_modpath(name))
+            except Exception as e:      # noqa
+                got = 'raised %s' % type(e).__name__
+            with warnings.catch_warnings():
+                warnings.simplefilter('ignore')
+                try:
+                    found = sorted((os.path.relpath(os.path.realpath(e.modpath), proj), e.callname) for e in core.parse_doctestables(name, analysis='static'))
+                except Exception as e:      # noqa
+                    found = 'raised %s' % type(e).__name__
+            exp_found = [(os.path.join('src', pkg, sub + '.py'), 'add')]
+            problems = []
+            if got != os.path.realpath(want):
+                problems.append('the name %r resolves to %r; the interpreter imports %r (a file spelled %r stands in the working directory)' % (name, got, want, stray))
+            if found != exp_found:
+                problems.append('collecting the doctests of %r gives %r, by construction %r' % (name, found, exp_found))
+            if problems:
+                ctx.violation('import-resolution', {'what': '; '.join(problems)[:900], 'layout': [pkg, stray, dotted],
+                              'theorem_or_correspondence': 'C17: a name is resolved as the interpreter resolves it (core._rectify_to_modpath / parse_doctestables by name)'}, True)
+        finally:
+            os.chdir(cwd)
+            sys.path[:] = path0
+            for k in [k for k in sys.modules if k.startswith('c17')]:
+                del sys.modules[k]
+    ctx.count('names_that_are_files_layouts', len(layouts))
+
+
 def run(ctx):
     quick = ctx.tier == 'quick'
     tmp = tempfile.mkdtemp(prefix='xdverif_c17_')
@@ -451,6 +500,7 @@ def run(ctx):
         import_by_path(ctx, tmp)
         ext_modules(ctx, tmp)
         symlink_trees(ctx, tmp)
+        names_that_are_files(ctx, tmp)
     finally:
         shutil.rmtree(tmp, ignore_errors=True)
     ctx.exhaustive = True
